@@ -46,7 +46,7 @@ type Case struct {
 }
 
 var opKinds = map[string][]string{
-	"image":         {"Hash", "Bytes", "Open", "Signatures", "Verify", "Verify", "VerifyOutsider", "VerifyTwin", "NeighbourFault", "OwnReaderFault"},
+	"image":         {"Hash", "Bytes", "Open", "Signatures", "Verify", "Verify", "VerifyOutsider", "VerifyTwin", "NeighbourFault", "OwnReaderFault", "VerifyThroughOneVariable"},
 	"database":      {"Bytes", "Marshal", "SigDataExists", "BytesExists", "Exists", "ExistsSpread", "ExistsAbsent", "ListBytes"},
 	"signed_update": {"Marshal", "Bytes"},
 	"descriptor":    {"Marshal", "Verify", "VerifyOutsider", "VerifyTwin"},
@@ -63,8 +63,19 @@ func genCase(t *rapid.T) Case {
 		if err != nil {
 			t.Fatalf("Parse: %v", err)
 		}
+		twinFirst := rapid.IntRange(0, 3).Draw(t, "twin_signature_first") == 0
 		for i := rapid.IntRange(1, 3).Draw(t, "nsig"); i > 0; i-- {
 			id := rapid.IntRange(0, 3).Draw(t, "signer")
+			if twinFirst {
+				// a signature by another key under the same issuer and serial (a re-issued certificate) comes first in the
+				// table: asking about the certificate meets an entry that names it and does not verify, then one that does
+				twinFirst = false
+				if tw, terr := gen.Twin(gen.FixedIdents()[id], 5); terr == nil {
+					if _, err := bin.Sign(tw.Priv(), tw.Cert); err != nil {
+						t.Fatalf("Sign: %v", err)
+					}
+				}
+			}
 			if _, err := bin.Sign(gen.FixedIdents()[id].Priv(), gen.FixedIdents()[id].Cert); err != nil {
 				t.Fatalf("Sign: %v", err)
 			}
@@ -192,6 +203,21 @@ func imageRunner(bin *authenticode.PECOFFBinary, signers []int, img []byte, own 
 				nb.Verify(ids[signers[0]].Cert)
 			}
 			return "-"
+		case "VerifyThroughOneVariable", "VerifyTwoCertificates":
+			// a signer's certificate, then an outsider's. The caller either has two certificate objects or one variable
+			// that it overwrites with the next certificate (a loop over a key ring that decodes into the same value):
+			// the answers depend on what the certificate is at the time of the call, not on which object holds it
+			first, second := ids[signers[op.Arg%len(signers)]].Cert, ids[7].Cert
+			if op.Kind == "VerifyTwoCertificates" {
+				ok1, err1 := bin.Verify(first)
+				ok2, err2 := bin.Verify(second)
+				return fmt.Sprint(ok1, err1, ok2, err2)
+			}
+			slot := *first
+			ok1, err1 := bin.Verify(&slot)
+			slot = *second
+			ok2, err2 := bin.Verify(&slot)
+			return fmt.Sprint(ok1, err1, ok2, err2)
 		case "VerifyTwin":
 			// same issuer and serial as a signer, another key: reaches the signature check and fails there
 			tw, terr := gen.Twin(ids[signers[op.Arg%len(signers)]], 5)
@@ -384,6 +410,11 @@ func checkCase(c Case) error {
 				twin, _, err := build()
 				if err != nil {
 					return err
+				}
+				if op.Kind == "VerifyThroughOneVariable" {
+					// the reference for the reused variable is the same pair of questions asked with two objects
+					baseline[op] = twin(Op{Kind: "VerifyTwoCertificates", Arg: op.Arg})
+					continue
 				}
 				baseline[op] = twin(op)
 			}
